@@ -11,7 +11,6 @@ import (
 	"math/big"
 	"testing"
 
-	"github.com/icon-project/goloop/common"
 	"github.com/icon-project/goloop/common/crypto"
 	"github.com/icon-project/goloop/common/errors"
 	"github.com/icon-project/goloop/module"
